@@ -181,6 +181,26 @@ PROPS['C07'] = {
                     'toLower/toUpper opaque'],
 }
 
+PROPS['C20'] = {
+    'sidecars': ['contracts/C20_registration.py'],
+    'level': 'other',
+    'explanation': 'Proved for ALL inputs: AndroidYowsupEnv.getToken(phone) equals the RFC 2104 construction written independently '
+                   '(b64(sha1((K xor opad) || sha1((K xor ipad) || signature || class digest || utf8(phone)))) with the first 64 key bytes; the '
+                   'three embedded constants are compared with reference copies; sha1/base64/utf8 uninterpreted, congruence suffices); '
+                   'WARequest.urlencode for str values equals the reference per-character encoding (loop invariant) followed by the three '
+                   'extra escapes; WARequest.encryptParams produces exactly one fresh ephemeral key pair and the blob '
+                   'b64(ephemeral_pub[1:] || AES-GCM(agreement(server key, ephemeral priv), nonce 0^12, utf8(encoded params), no aad)) as the '
+                   'single ENC parameter, nothing cached on the request object.  Bounded (labelled bounded): that standard percent-decoding '
+                   'returns the original value for str / bytes / int values and that the blob decrypts with the matching private key - '
+                   'cross-checked natively against urllib.parse.unquote_to_bytes, hmac/hashlib and cryptography.',
+    'native_checks': [{'name': 'c20_cross_check', 'role': 'stand-in', 'cmd': ['bounded/registration_check.py'],
+                       'bound': 'quick: 334 phone strings, 1344 values (every byte, code points 0..0x2FF and plane boundaries, random str/bytes/int), '
+                                '60 parameter lists, 15 encrypted blobs with random recipient keys; thorough: x60'}],
+    'assumptions': ['hashlib.sha1, base64, str.encode, urllib.parse.quote (one character), str.lower, str.replace, Curve25519 agreement and AES-GCM '
+                    'are assumed contracts / uninterpreted functions; urlencodeParams is an opaque event inside encryptParams',
+                    'urlencode is proved for str values only (bytes / int values: bounded)'],
+}
+
 NOT_APPLICABLE = {
     'C11': 'quantifies over thread interleavings (2-4 sender threads through lock/queue operations); no verifier available here '
            'has a thread or permission model and sequential contracts cannot express "for every schedule" (DESIGN.md section 8)',
